@@ -1,19 +1,38 @@
-/- Instrumented run (not part of any theorem): the operand stack whenever control leaves a routine. -/
+/- Instrumented run (not part of any theorem): what a routine leaves on the operand stack whenever
+   control leaves it.
+
+   At every `retsub` the recorded list is the part of the stack that belongs to the ACTIVATION that
+   returns: the values above the lowest stack height reached since its `callsub` (the callee pops its
+   arguments under the scratch-slot convention, so that height is "entry minus arguments").  What lies
+   below belongs to the callers - under the scratch-slot convention a recursive caller parks its live
+   local slots there (spill code), and how many there are depends on how many slots the caller owns,
+   which is not behaviour of the routine that returns. -/
 import PyTealV.Avm.Sem
 namespace PyTealV.Avm
 
 structure ExitTrace where
-  exits : List (List Val) := []     -- stack at every retsub (newest first), before the frame is popped
+  exits : List (List Val) := []     -- own part of the stack at every retsub (newest first), before the frame is popped
   final : List Val := []            -- stack when the program halted
+  lows : List Nat := []             -- lowest stack height of every active call (innermost first)
+
+private def bump (h : Nat) : List Nat → List Nat
+  | [] => []
+  | l :: ls => min l h :: ls
 
 def runTraced (cx : Ctx) (p : Program) : Nat → St → ExitTrace → Outcome × ExitTrace
   | 0, s, t => (.outOfFuel, { t with final := s.ms.stack })
   | fuel+1, s, t =>
+    let h := s.ms.stack.length
+    let t0 := { t with lows := bump h t.lows }
     let t' := match p[s.pc]? with
       | some ln => (match ln.instr with
-        | .retsub => { t with exits := s.ms.stack :: t.exits }
-        | _ => t)
-      | none => t
+        | .retsub =>
+          (match t0.lows with
+           | l :: rest => { t0 with exits := s.ms.stack.take (h - l) :: t0.exits, lows := bump l rest }
+           | [] => { t0 with exits := s.ms.stack :: t0.exits })
+        | .callsub _ => { t0 with lows := h :: t0.lows }
+        | _ => t0)
+      | none => t0
     match step cx p s with
     | .next s' => runTraced cx p fuel s' t'
     | .halt o => (o, { t' with final := s.ms.stack })
